@@ -502,6 +502,7 @@ pub proof fn lemma_mb3(a: nat, b: nat, c: nat, rest: Seq<u8>)
         &&& s.skip(la as int).skip(lb as int).skip(lc as int) == rest
     }),
 {
+    hide(sp_multibyte);      // only lemma_mb_roundtrip's statement about it is used; unfolding it made this lemma's cost erratic
     let ma = enc_mb(a); let mb = enc_mb(b); let mc = enc_mb(c);
     let s = ma + mb + mc + rest;
     lemma_pow2(0);
@@ -568,6 +569,9 @@ pub proof fn lemma_xz_rt_index(unp: nat, upk: nat, rest: Seq<u8>)
         &&& sp_xz_index(idx.skip(1) + rest, recs, 1) == Some((idx.len() - 1) as nat)
     }),
 {
+    hide(sp_multibyte);
+    hide(sp_xz_index);
+    hide(sp_index_records);
     let b = enc_xz_index_body(unp, upk);
     let pad = zeros(sp_pad4(b.len()));
     let bp = b + pad;
@@ -653,6 +657,9 @@ pub proof fn lemma_xz_roundtrip(e: Seq<u8>, data: Seq<u8>)
         enc_xz_index(12 + e.len(), data.len()).len() / 4 - 1 <= 0xFFFF_FFFF,
     ensures sp_xz(enc_xz_file(e, data.len())) == (XzRes::Good { out: data }),
 {
+    hide(sp_multibyte);
+    hide(sp_xz_index);
+    hide(sp_index_records);
     reveal(sp_xz);
     let n = data.len();
     let u: nat = 12 + e.len();
